@@ -102,6 +102,7 @@ type vfEvent struct {
 	MaxRt   int     `json:"maxrt"`  // init only
 	TxSeq0  string  `json:"txseq0"` // init only
 	Lax     bool    `json:"lax"`    // init only: the data plane still answers a query for a URR it has removed
+	Rts     int     `json:"rts"`    // assoc: the peer's recovery time stamp, seconds relative to the usual one
 	Tag     string  `json:"tag"`    // free text from the generator (history classes)
 	Mut     vfMut   `json:"mut"`    // t = "mut": the valid message described by Base is built, mutated and sent
 	Base    string  `json:"mbase"`  // t = "mut": type of the valid message (hb assoc est mod del rptrsp)
@@ -228,9 +229,17 @@ func vfMeasure(k int) (report.VolumeMeasure, report.DurationMeasure, time.Time, 
 		UplinkPktNum:   0x0800000000000000 | u*5 + 4,
 		DownlinkPktNum: 0xffffffffffffffff - u*7,
 	}
+	if k%4 == 0 {
+		// a measurement without a single packet counted
+		vm.TotalPktNum, vm.UplinkPktNum, vm.DownlinkPktNum = 0, 0, 0
+	}
 	dm := report.DurationMeasure{DurationValue: uint64(time.Duration(1000+k) * time.Second)}
 	st := vfT0.Add(time.Duration(2*k) * time.Second)
 	et := vfT0.Add(time.Duration(2*k+1) * time.Second)
+	if k%5 == 0 {
+		// the data plane's clock went backwards: the end stamp lies before the start stamp - "exactly as measured" all the same
+		et = st.Add(-3 * time.Second)
+	}
 	return vm, dm, st, et
 }
 
@@ -461,6 +470,11 @@ func vfNewNet(k int) (*vfNet, error) {
 			return nil, err
 		}
 	}
+	// p5 / n5: an address that has p3's address as a textual prefix (127.k.0.13 / 127.k.0.130)
+	if err := add("p5", fmt.Sprintf("127.%d.0.130", k), 8805); err != nil {
+		return nil, err
+	}
+	n.nodes["n5"] = fmt.Sprintf("127.%d.0.130", k)
 	// n9: a node id nobody listens on (reports to it vanish)
 	n.nodes["n9"] = fmt.Sprintf("127.%d.0.99", k)
 	bar, err := net.ListenUDP("udp4", &net.UDPAddr{IP: net.ParseIP(fmt.Sprintf("127.%d.0.98", k)), Port: 7805})
@@ -781,7 +795,7 @@ func (x *vfExec) build(e *vfEvent) ([]byte, error) {
 	case "hb":
 		m = message.NewHeartbeatRequest(seq, ie.NewRecoveryTimeStamp(vfT0), nil)
 	case "assoc":
-		ies = append(ies, ie.NewRecoveryTimeStamp(vfT0))
+		ies = append(ies, ie.NewRecoveryTimeStamp(vfT0.Add(time.Duration(e.Rts)*time.Second)))
 		m = message.NewAssociationSetupRequest(seq, ies...)
 	case "assocupd":
 		m = message.NewAssociationUpdateRequest(seq, ies...)
@@ -794,6 +808,11 @@ func (x *vfExec) build(e *vfEvent) ([]byte, error) {
 		}
 		m = message.NewSessionEstablishmentRequest(0, 0, seid, seq, 0, ies...)
 	case "mod":
+		if e.CP != "" {
+			// a CP F-SEID IE in a Modification Request: it does not address anything, the header SEID does
+			cp, _ := strconv.ParseUint(e.CP, 10, 64)
+			ies = append(ies, ie.NewFSEID(cp, net.ParseIP(x.net.addrs["p1"].IP.String()), nil))
+		}
 		m = message.NewSessionModificationRequest(0, 0, seid, seq, 0, ies...)
 	case "del":
 		m = message.NewSessionDeletionRequest(0, 0, seid, seq, 0, ies...)
